@@ -56,9 +56,10 @@ def gen_runs(tier):
     n = _budget(QUICK_RUNS if tier == "quick" else THOROUGH_RUNS)
 
     def make(focus=None):
-        # (an output whose outputSource is a workflow input makes the export crash: known finding, own sub-check)
+        # (an output whose outputSource is a workflow input, or a File literal returned by an ExpressionTool, makes the
+        # export crash: known findings, exercised by the known-shapes sub-check)
         return gen.workflow_cases(focus=focus, file_bias=0.7, allow_fail=False, max_steps=4, passthrough=False,
-                                  with_file_input=True)
+                                  with_file_input=True, file_literals=False)
 
     yield from focused_cases(make, _FOCI, n, _seed() + 340000)
 
@@ -286,6 +287,14 @@ def gen_known_shapes(tier):
     base["outputs"]["q"] = {"type": "int", "outputSource": "t/o"}
     yield {"shape": "output-from-workflow-input", "doc": base, "job": {"a": 3 + _seed() % 9, "f": {"class": "File", "path": "in0.txt"}},
            "files": {"in0.txt": "payload\n"}}
+    mkfile = {p["tag"]: p for p in T.expression_tools()}["mkfile"]["doc"]
+    lit = {"cwlVersion": "v1.2", "class": "Workflow", "requirements": dict(TOP_REQS),
+           "inputs": {"a": {"type": "int"}, "f": {"type": "File"}},
+           "outputs": {"o": {"type": "int", "outputSource": "s/o"}, "g": {"type": "File", "outputSource": "m/f"}},
+           "steps": {"s": {"run": inc, "in": {"a": {"source": "a"}}, "out": ["o"]},
+                     "m": {"run": mkfile, "in": {"s": {"default": "abc"}, "dep": {"source": "a"}}, "out": ["f"]}}}
+    yield {"shape": "file-literal-output", "doc": lit, "job": {"a": 5, "f": {"class": "File", "path": "in0.txt"}},
+           "files": {"in0.txt": "payload\n"}}
     if tier != "quick":
         sub = {"class": "Workflow", "inputs": {"a": {"type": "int"}},
                "outputs": {"o": {"type": "int", "outputSource": "a"}, "r": {"type": "int", "outputSource": "s/o"}},
@@ -340,6 +349,8 @@ def check_export(case, rec):
             kind = f"C34:export-fails:{pr.error_type()}"
             if pr.error_type() == "KeyError" and "_get_source" in pr.stderr and _outputs_from_inputs(case["doc"]):
                 kind = "C34:export-fails:output-from-workflow-input"
+            elif pr.error_type() == "KeyError" and "_process_file_token" in pr.stderr and "contents" in json.dumps(case["doc"]):
+                kind = "C34:export-fails:file-literal-without-checksum"
             raise Violation(kind,
                             "streamflow prov failed on a completed run:\n" + run._strip_ansi(pr.stderr)[-1500:])
         try:
